@@ -11,7 +11,8 @@ import (
 
 // Family "fieldwrites" (property C08): FIELD WRITES OUTSIDE CONSTRUCTION.  A value is immutable iff, once it has been
 // handed out, no statement assigns one of its fields (or an element of a slice / map held in one).  This family lists
-// every such statement of package `types` (all non-test files: whatever can be nested in a list or a map lives there)
+// every such statement of package `types` and of package `internal` (all non-test files: whatever can be nested in a list
+// or a map lives there — `internal` holds the function / lambda / parameter values; its rows are prefixed `internal.`)
 // whose target is a struct BEHIND A px.Value IMPLEMENTATION — a struct type with a `PType` method, or one that embeds
 // such a struct — one row per (struct, field, enclosing function, kind), duplicates removed:
 //
@@ -512,8 +513,9 @@ func (e *fwEnv) exprs(fn string, x ast.Expr, guards []string) {
 	})
 }
 
-func genFieldWrites() string {
-	files, err := filepath.Glob(filepath.Join(*repo, "types", "*.go"))
+// fwAnalyse: one package directory; struct names get `prefix` (empty for package types)
+func fwAnalyse(dir, prefix string) (rows []fwRow, values []string) {
+	files, err := filepath.Glob(filepath.Join(*repo, dir, "*.go"))
 	if err != nil {
 		panic(err)
 	}
@@ -616,10 +618,24 @@ func genFieldWrites() string {
 			env.walk(funcKey(fd), fd.Body, nil)
 		}
 	}
-	var rows []fwRow
 	for r := range p.rows {
+		if r.ty != "?" {
+			r.ty = prefix + r.ty
+		}
+		r.fn = prefix + r.fn
 		rows = append(rows, r)
 	}
+	for name := range p.value {
+		values = append(values, prefix+name)
+	}
+	return rows, values
+}
+
+func genFieldWrites() string {
+	rows, vals := fwAnalyse("types", "")
+	r2, v2 := fwAnalyse("internal", "internal.")
+	rows = append(rows, r2...)
+	vals = append(vals, v2...)
 	sort.Slice(rows, func(i, j int) bool {
 		a, b := rows[i], rows[j]
 		if a.ty != b.ty {
@@ -634,12 +650,12 @@ func genFieldWrites() string {
 		return a.kind < b.kind
 	})
 	var vs []string
-	for name := range p.value {
+	for _, name := range vals {
 		vs = append(vs, leanStr(name))
 	}
 	sort.Strings(vs)
 	var b strings.Builder
-	b.WriteString(header("fieldwrites", "types/*.go (non-test)"))
+	b.WriteString(header("fieldwrites", "types/*.go, internal/*.go (non-test)"))
 	b.WriteString("import Pcore.Model.ImmutResolve\nnamespace Pcore.Generated\nopen Pcore.Immut\n\n")
 	fmt.Fprintf(&b, "/-- the structs behind px.Value implementations (a `PType` method, or embedding one that has it) -/\ndef valueStructs : List String := [%s]\n\n", strings.Join(vs, ", "))
 	var rl []string
